@@ -105,6 +105,22 @@ pub fn gen(tier: &str, rng: &mut Rng, emit: &mut dyn FnMut(String)) {
         emit(format!("tnew {}", hex(s.as_bytes())));
         emit(format!("tenc {}", hex(s.as_bytes())));
     });
+    // every length: plain, escape at the start, special byte at the end
+    for l in sweep_lengths(tier) {
+        let a = "a".repeat(l);
+        emit(format!("tnew {}", hex(a.as_bytes())));
+        emit(format!("tenc {}", hex(format!("~0{a}").as_bytes())));
+        emit(format!("tnew {}", hex(format!("~{a}/").as_bytes())));
+    }
+    // around u16::MAX: "~01" / "~1" / a dangling '~' near the start and the end of a very long token; '~' before the first '/'
+    for l in SCALE_64K {
+        let a = "a".repeat(l);
+        for t in [format!("~01{a}"), format!("{a}~01"), format!("{a}~1"), format!("~{a}/x"), format!("x~1y{a}"), format!("{a}~")] {
+            emit(format!("tnew {}", hex(t.as_bytes())));
+            emit(format!("tenc {}", hex(t.as_bytes())));
+            emit(format!("tenc {}", hex(rfc_escape(&t).as_bytes())));
+        }
+    }
     for s in boundary_texts(tier) {
         emit(format!("tnew {}", hex(s.as_bytes())));
         emit(format!("tenc {}", hex(s.as_bytes())));
